@@ -188,6 +188,10 @@ def bc4(F, R):
             found.add("err2")
         elif e == [w1, ("try", "write", "Continue"), w2, ("try", "write", "Continue"), ("ret", "Ok(Tuple{})")]:
             found.add("ok")
+        elif e == [w1, ("try", "write", "Continue"), ("devwrite->ret",) + w2[1:]]:
+            # the duplicate write's own Result is the function's result: its error is returned, its Ok is the Ok
+            found.add("ok")
+            found.add("err2")
         else:
             R.bad(fn, "path:" + " ".join(x[0] for x in e), "path violates primary-then-duplicate protocol: %s" % (evs,), fn.loc(0))
             continue
